@@ -239,11 +239,14 @@ theorem mem_certUsable {l : List Nat} {c : Option Cred} {v s : Nat} (h : s ∈ c
   · cases h
   · exact mem_filterForCertificate h
 
-theorem mem_prfFiltered {ss : Settings} {o : Offer} {v : Nat} {l : List Nat} {s : Nat} (h : s ∈ prfFiltered ss o v l) : s ∈ l := by
+theorem mem_prfFiltered {ss : Settings} {o : Offer} {v : Nat} {c : Option Cred} {l : List Nat} {s : Nat}
+    (h : s ∈ prfFiltered ss o v c l) : s ∈ l := by
   unfold prfFiltered at h
   split at h
   · exact h
-  · exact mem_filterForPrfs h
+  · split at h
+    · exact mem_filterForPrfs h
+    · exact h
 
 theorem selectCertificate_ok {ss : Settings} {sc : ServerCfg} {o : Offer} {suites : List Nat} {v : Nat}
     {r : Nat × Nat} (h : selectCertificate ss sc o suites v = .ok r) :
